@@ -124,6 +124,8 @@ def equivalence(sh, prog_or_topo, label, src, T, nodes, steps):
     if nodes is None or recurs(nodes, T):
         sh.count("equivalence_skipped_recursive")
         return
+    if typing.get_origin(T) in (typing.Final, typing.ClassVar):
+        return  # a qualifier is not a type: it cannot be aliased / NewType'd / referenced
     mod = prog_or_topo.module
     name = f"_eq_{sh.case}_{abs(hash(src)) % 10**8}"
     setattr(mod, name, T)
